@@ -10,6 +10,7 @@ import operator
 
 from .. import tt
 
+PYTHON_O_STRIDE = {"quick": 4, "thorough": 2}      # every n-th case is repeated in an interpreter started with -O
 RULE = ("builder calls enumerated over literal lists (length 0..5 quick / 0..7 thorough, every "
         "polarity pattern, containers list/tuple/range/generator, shifted variable ids, repeated "
         "literals in thorough), all operators, constants -2..n+2, CNF and OPB parents; mappings "
